@@ -137,6 +137,9 @@ let run_case (w : string list) : string =
   | ["rgbenc"; r; g; b] ->
     pr "ok %s" (string_of_z (M.encode_rgb565 { M.red = z_of_string r; M.green = z_of_string g; M.blue = z_of_string b }))
   | ["file"; r; b; script] -> run_file_script (route_of r) (bytes_of_hex b) script
+  | ["load"; k; r; b] ->
+    let kd = (match k with "traj" -> M.KTraj | "light" -> M.KLight | "yaw" -> M.KYaw | "rth" -> M.KRth | _ -> failwith "kind") in
+    show_res_code (fun (body, owned) -> pr "ok %d %s" (if owned then 1 else 0) (hex_of_bytes body)) (M.load kd (route_of r) (bytes_of_hex b))
   | ["crc"; c; b; _splits] -> pr "ok %s" (string_of_z (M.crc_update (z_of_string c) (bytes_of_hex b)))
   | ["crcspec"; b] -> pr "ok %s" (string_of_z (M.crc_spec (bytes_of_hex b)))
   | op :: _ -> "unknown-op " ^ op
